@@ -125,8 +125,14 @@ def source_scan(modules=None):
     return hits
 
 
+# audited modules whose theorems live in another namespace than their directory suggests
+NAMESPACES = {'Lemmas.MiniPyFuel': 'Bridge.Py'}
+
+
 def prop_module(prop):
     """'C07' -> ('BridgeVerif.Props.C07', 'Bridge.C07'); 'Translated.Score' -> ('BridgeVerif.Translated.Score', 'Bridge.Translated')"""
+    if prop in NAMESPACES:
+        return 'BridgeVerif.' + prop, NAMESPACES[prop]
     if '.' in prop:
         return 'BridgeVerif.' + prop, 'Bridge.' + prop.split('.')[0]
     return f'BridgeVerif.Props.{prop}', f'Bridge.{prop}'
